@@ -152,3 +152,79 @@ EXPECTED_REFUTED = {
     P + ':bad_sum_to : loop#0 invariant[preserved]',
     P + ':bad_all_positive : loop#0 invariant[preserved]',
 }
+
+
+def ok_numbered(lines):
+    n = 0
+    for line in lines:
+        n += 1
+        yield n, line
+
+
+from pyvc.api import IterOf  # noqa: E402
+
+M.contract(P + ':ok_numbered', params=dict(lines=IterOf(Str)), yields=ListOf(FixedList(Int, Str, as_tuple=True)),
+           ensures={'all-lines-numbered-from-1': lambda lines, yielded:
+           len(yielded) == len(lines.xs) and forall_range(0, len(yielded), lambda k:
+           yielded[k][0] == k + 1 and yielded[k][1] == lines.xs[k])},
+           raises_only=())
+M.loop(P + ':ok_numbered', 0,
+       invariant=lambda _i, n, lines, yielded: n == _i and len(yielded) == _i and forall_range(
+           0, len(yielded), lambda k: yielded[k][0] == k + 1 and yielded[k][1] == lines.xs[k]),
+       modifies=dict(n=Int, line='local', yielded='len'))
+
+
+def bad_numbered(lines):
+    n = 0
+    for line in lines:
+        yield n, line
+        n += 1
+
+
+M.contract(P + ':bad_numbered', params=dict(lines=IterOf(Str)), yields=ListOf(FixedList(Int, Str, as_tuple=True)),
+           ensures={'all-lines-numbered-from-1': lambda lines, yielded:
+           len(yielded) == len(lines.xs) and forall_range(0, len(yielded), lambda k:
+           yielded[k][0] == k + 1 and yielded[k][1] == lines.xs[k])},
+           raises_only=())
+M.loop(P + ':bad_numbered', 0,
+       invariant=lambda _i, n, lines, yielded: n == _i and len(yielded) == _i and forall_range(
+           0, len(yielded), lambda k: yielded[k][0] == k + 1 and yielded[k][1] == lines.xs[k]),
+       modifies=dict(n=Int, line='local', yielded='len'))
+
+EXPECTED_REFUTED.add(P + ':bad_numbered : loop#0 invariant[preserved]')
+
+
+def ok_collect_positive(xs):
+    out = []
+    for x in xs:
+        if x > 0:
+            out.append(x)
+    return out
+
+
+from pyvc.api import MListOf  # noqa: E402
+
+M.contract(P + ':ok_collect_positive', params=dict(xs=ListOf(Int)), returns=MListOf(Int),
+           ensures={'only-positive': lambda result: forall_range(0, len(result), lambda k: result[k] > 0),
+                    'not-longer': lambda xs, result: len(result) <= len(xs)},
+           raises_only=())
+M.loop(P + ':ok_collect_positive', 0,
+       invariant=lambda _i, out: len(out) <= _i and forall_range(0, len(out), lambda k: out[k] > 0),
+       modifies=dict(out=MListOf(Int), x='local'))
+
+
+def ok_out_param(xs, acc):
+    for x in xs:
+        acc.append((x, x + 1))
+    return len(acc)
+
+
+M.contract(P + ':ok_out_param', params=dict(xs=ListOf(Int), acc=MListOf(FixedList(Int, Int, as_tuple=True))),
+           old=lambda acc: len(acc), returns=Int,
+           ensures={'appended': lambda xs, acc, old, result: result == old + len(xs) and len(acc) == result
+                    and forall_range(0, len(xs), lambda k: acc[old + k][1] == xs[k] + 1)},
+           raises_only=())
+M.loop(P + ':ok_out_param', 0,
+       invariant=lambda _i, xs, acc, old: len(acc) == old + _i and forall_range(
+           0, _i, lambda k: acc[old + k][1] == xs[k] + 1),
+       modifies=dict(acc=MListOf(FixedList(Int, Int, as_tuple=True)), x='local'))
